@@ -7,7 +7,7 @@
 set -u
 ID=$1; shift
 WT=/tmp/seed-$ID
-OUT=/verif/seeded/$ID
+OUT=/verif/seeded/$ID${SEED_SUFFIX:-}
 export GOFLAGS=-mod=mod GOPROXY=off GOSUMDB=off GOTOOLCHAIN=local
 cd $WT || exit 2
 [ -f SEED/patch.diff ] || { echo "no patch.diff"; exit 2; }
